@@ -115,6 +115,22 @@ def build_jobs(names, escapes, quick, rng):
         for hp in (0, 1):
             for hd in (False, True):
                 add("direct", "archive", rel, proto=4, directory=True, overwrite=False, hp=hp, hd=hd, deep=True)
+    # ---- elements that are a parent reference (or a plain name) with trailing separators: what a check that
+    # tolerates "dir/" must not let through, because joining drops the separator and keeps the '..'
+    trail = [["../", "canary"], ["..//", "r"], ["d", "../", "../", "r"], ["../"], ["..//"], ["x/", "..", "..", "y"], ["./", "r"],
+             ["x", "../", "../", "canary"]]
+    for rel in trail:
+        for proto, directory, site in cfg_combos():
+            if site == "plain":
+                if len(rel) == 1:
+                    for ow in (False, True):
+                        add("direct", "plain", rel, proto=proto, directory=False, overwrite=ow)
+            elif site == "json" and (directory or proto >= 3):
+                for ow in (False, True):
+                    for primed in (False, True):
+                        add("direct", "json", rel, proto=proto, directory=directory, overwrite=ow, hd=False, primed=primed, deep=True)
+        for hd in (False, True):
+            add("direct", "archive", rel, proto=4, directory=True, overwrite=False, hp=0, hd=hd, deep=True)
     # ---- names with '\\': not a separator here, so such an element is one ordinary name inside the
     # destination -- also when the peer claims to be a Windows server (the client then uses Windows
     # framing; nothing may start treating '\\' as a separator after the names were checked)
